@@ -254,6 +254,10 @@ def main(run: Run):
         codec(run)
     if only != "B" and not rg.startswith("codec-"):
         monitor(run)
+    v.log("C19 totals: %d traces / %d recorded rows validated, %d states (design + generation + validation), "
+          "%d distinct non-trivial cases, extra=%s"
+          % (run.traces_validated, run.events_validated, run.states,
+             run.extra.get("nontrivial_counted", 0), {k: x for k, x in run.extra.items() if k != "nontrivial_counted"}))
 
 
 LEVEL = "exploration"
